@@ -16,7 +16,7 @@ tnp                  pp.TangentialNormalProjection: blocks orthogonal, |det| = 1
 
 Tolerances (absolute, the matrices have entries of size 1): 1e-10 for orthogonality / determinant and
 for R n = +-ref on directions that are at an angle >= 1e-4 from the reference or exactly (anti)parallel;
-3e-8 for directions nearly (anti)parallel to the reference (angle 1e-12 .. 1e-5): the angle is
+1e-7 for directions nearly (anti)parallel to the reference (angle 1e-12 .. 1e-5): the angle is
 obtained as arccos(n . ref), which loses half the digits there, and below |n x ref| <= 1e-8 the
 functions deliberately return the identity (rotation_matrix: "zero vector -> identity")."""
 from __future__ import annotations
@@ -37,7 +37,7 @@ RULE = (
     "collinear in a forced class) embedded in 3-d by an integer-quaternion rotation (rational matrix), a shift and "
     "a scale 10^e. Collinear point sets likewise. Grids: Cartesian / structured-triangle 2-d and Cartesian 1-d "
     "grids with in-plane node perturbation <= 0.2h, embedded by the same rigid motions. Oracle: R^T R = I and "
-    "det R = +1 (1e-10), R n = +-reference (1e-10; 3e-8 for nearly parallel directions), planar / collinear "
+    "det R = +1 (1e-10), R n = +-reference (1e-10; 1e-7 for nearly parallel directions), planar / collinear "
     "inputs get a constant off-coordinate, pairwise distances equal the exact integer distances of the "
     "construction (rtol 1e-9), rotation_matrix equals scipy's Rotation.from_rotvec; TangentialNormalProjection "
     "blocks orthogonal, |det| = 1 (= +1 in 3-d), last row = unit normal, P_t^T P_t + P_n^T P_n = I. "
@@ -53,7 +53,7 @@ LEVEL_TEXT = ("Exploration: thousands of generated directions, planar clouds, co
               "orthogonality, determinant, image of the normal / tangent and distance preservation against the "
               "exact integer construction of the input; axis-aligned, exactly and nearly (anti)parallel "
               "directions are forced and their frequencies reported.")
-LEVEL_NOTE = ("Tolerance 1e-10, relaxed to 3e-8 for directions within 1e-5 rad of the reference (arccos-based "
+LEVEL_NOTE = ("Tolerance 1e-10, relaxed to 1e-7 for directions within 1e-5 rad of the reference (arccos-based "
               "angle and the 1e-8 identity shortcut of rotation_matrix). The 2-d TangentialNormalProjection "
               "fixes the tangent to point in +x (code comment), so det = -1 for half of the normals; only "
               "|det| = 1 is demanded there. Finds violations, does not prove absence.")
@@ -73,7 +73,7 @@ REQUIRED.update({"dir-int": 0.05, "dir-axis": 0.02, "dir-par": 0.01, "dir-anti":
                  "tnp-3d": 0.04, "grid-cart2": 0.01, "grid-tri2": 0.01, "grid-cart1": 0.01})
 
 TOL = 1e-10
-TOL_NEAR = 3e-8
+TOL_NEAR = 1e-7
 
 # ----------------------------------------------------------------------------- strategies
 _int3 = st.lists(st.integers(-5, 5), min_size=3, max_size=3)
